@@ -22,12 +22,16 @@ type World struct {
 	Untracked []bool
 	SelfSkip  []bool         // the package's own fingerprint is "" (its own changes are not tracked)
 	Faults    map[int]string // invocation index -> fault kind
+	Real      bool           // export files hold real gc export data (const Ident = build identity)
 }
 
 // Text is the form the stub reads.
 func (w *World) Text() []byte {
 	var b strings.Builder
 	fmt.Fprintf(&b, "N %d\n", len(w.Pkgs))
+	if w.Real {
+		b.WriteString("R 1\n")
+	}
 	for i, p := range w.Pkgs {
 		un := 0
 		if i < len(w.Untracked) && w.Untracked[i] {
